@@ -316,7 +316,7 @@ Definition set_addrs (h : heap) (ha ba : N) : heap :=
          (h_fhmax h) (h_others h) (h_loaded h).
 
 (* WriteAt for a loaded heap, WriteToFile otherwise: header and fh.DirectBlock only *)
-Definition store (h : heap) (fs : fstate) : heap * fstate * N :=
+Definition store_direct (h : heap) (fs : fstate) : heap * fstate * N :=
   match h_loaded h with
   | Some (ha, ba) =>
       let h1 := set_addrs h ha ba in
@@ -330,6 +330,14 @@ Definition store (h : heap) (fs : fstate) : heap * fstate * N :=
       let f1 := write_at (f_bytes fs) ha (encode_header h1) in
       let f2 := write_at f1 ba (encode_dblock (h_blk h1)) in
       (h1, mkFS f2 (ba + db_size (h_blk h)), ha)
+  end.
+
+(* WriteToFile / WriteAt: a heap that moved to an indirect root is refused (ErrHeapFull) before anything is
+   allocated, updated or written; otherwise header and root direct block are written *)
+Definition store (h : heap) (fs : fstate) : res (heap * fstate * N) :=
+  match h_ind h with
+  | Some _ => Err
+  | None => Ok (store_direct h fs)
   end.
 
 (* ---- parsing *)
@@ -514,10 +522,13 @@ Definition step (cap : N -> N) (bs : N) (st : heap * fstate) (o : op) : heap * f
   | Get id => (h, fs, match get h id with Ok d => OData d | Err => OErr end)
   | Ovw id d => let '(h1, r) := overwrite h id d in (h1, fs, out_of_unit r)
   | Del id => let '(h1, r) := delete h id in (h1, fs, out_of_unit r)
-  | SL => let '(h1, fs1, ha) := store h fs in
-          match load bs (f_bytes fs1) ha with
-          | Ok h2 => (h2, fs1, OUnit)
-          | Err => (h1, fs1, OErr)        (* the harness keeps working on the heap it tried to store *)
+  | SL => match store h fs with
+          | Err => (h, fs, OErr)            (* write-out refused: nothing changed, nothing written *)
+          | Ok (h1, fs1, ha) =>
+              match load bs (f_bytes fs1) ha with
+              | Ok h2 => (h2, fs1, OUnit)
+              | Err => (h1, fs1, OErr)      (* the harness keeps working on the heap it stored *)
+              end
           end
   end.
 
